@@ -41,6 +41,18 @@ its strips of (A, P, R, A_c) of every level (recorded by the coarsening wrapper)
                      convergence, R = P^T (block adjoint), A_c = scale R A P (exact for aggregation, to rounding for smoothed
                      aggregation -- this is where the operand order inside mpi::product shows), next level's A = A_c,
                      finest A = the system matrix, aggregation: P_tent consists of identity blocks, one per aggregated block row.
+  smoothed aggr.     ops `sa` / `bsa` (tools/props/c12_sa.py) run amgcl::mpi::coarsening::smoothed_aggregation<Backend> itself (scalar and
+                     static_matrix<double,2,2> values): one coarsening object, transfer_operators called 1..3 times (eps_strong halved
+                     inside every call), pmis<Backend> run by the driver on a copy of the parameters before every call (P_tent, strength
+                     pattern).  Compared with the extracted Coq model DistSa.v (op m.dsa: strength with exchanged ghost diagonals, PMIS
+                     model, filtered matrix rank by rank with the weak entries of the local AND the remote part lumped, dia_f * A.val
+                     from the left, dist_product, dist_transpose): aggregates, strength pattern, P_tent exactly; P and R EXACTLY where
+                     the double arithmetic of the call is exact (filtered diagonals +-2^k / upper triangular blocks with +-2^k on the
+                     diagonal, omega = 1/2, 1, 1/4 -- generated on purpose), else to 2^-40 relative.  omega: the model's formula
+                     (relax * 2/3, relax * (4/3) / distributed Gershgorin) must agree with the double value to 2^-49 relative.
+                     `solve` / `bsolve` with smoothed aggregation: the recording wrapper also logs P_tent (T) and the strength pattern (S)
+                     of every level; oracle o.saform: P = (I - omega Df^-1 A_f) P_tent on the gathered operators of EVERY level
+                     (block products in the order Df^-1 * A, 1e-9), strength pattern of level l = the test with eps_strong * 0.5^l.
 """
 import random, re
 from fractions import Fraction as F
@@ -48,6 +60,7 @@ from vcheck import fmt_q, fmt_vec, fmt_ivec, fmt_crs, parse_out_crs, parse_out_v
 import gen
 from props.common import account, oracle_run
 from props.mpi_common import run_mpi
+from props import c12_sa
 
 DRIVERS = ["mpi_solve"]
 MODEL = "distsolve"
@@ -58,21 +71,30 @@ ASSUMPTIONS = [
     "the distributed solve runs at double (MPI datatypes); truthfulness compares the reported residual (a floating-point "
     "recurrence) with the exactly recomputed true residual within a tested tolerance (1e-6 relative + 1e-12; IDR(s) 1e-10)",
     "PMIS aggregation: Coq model Pmis.v (block_size 1, no near-null space), tied exactly (op pmis vs m.pmis); its block_size > 1 lifting and the "
-    "near-null-space prolongation (QR at double, row exchange) are covered by the PmisSpec oracles only; repartitioning (merge), smoothing of P and the "
+    "near-null-space prolongation (QR at double, row exchange) are covered by the PmisSpec oracles only; repartitioning (merge) and the "
     "consolidation of the coarse problem are covered by the oracle runs only (no Coq model); ParMETIS/Scotch/PaStiX/Eigen-SparseLU are not installed",
+    "distributed smoothed aggregation: Coq model DistSa.v (nullspace.cols = 0, power_iters = 0), tied by ops sa / bsa vs m.dsa; the run is at double: P and R "
+    "are compared exactly only where tools/props/c12_sa.py (an exact replica of the strength test, used for this decision and for case generation only) "
+    "finds the arithmetic of the call exact, else to 2^-40 relative; omega = relax * (2.0/3) resp. relax * ((4.0/3)/rho) is evaluated at double by the "
+    "python module and must agree with the model's exact formula to 2^-49 relative; the recording wrapper obtains P_tent / the strength pattern by running "
+    "pmis<Backend> itself on a copy of the parameters (PMIS is deterministic)",
     "PMIS model: the point-to-point messages of a round arrive completely and are applied in neighbour-list (rank) order; strength rows contain the diagonal",
     "block values (bsolve / bdirect): static_matrix<double,2,2>; the gathered block operators are expanded to scalar matrices by tools/props/C12.py before the "
-    "extracted oracles run; the smoothed-prolongation formula and the block smoothers are not tied under MPI",
+    "extracted oracles run (the smoothed-prolongation formula is evaluated at BlockS QcS 2 by ops m.dsa / o.saform); the block smoothers are not tied under MPI",
     "the rank-lifted solver theorems (DistSolveProofs.v) are about CG and Richardson with abstract distributed preconditioner; "
     "the other Krylov methods are covered by the rank-consistency oracle only",
 ]
-TRUSTED_BASE = ["mpirun/Open MPI 4.1.4, mpicxx (g++ 12); harness/drv_mpi_solve.cpp (recording coarsening wrapper, op pmis calling "
-                "mpi::coarsening::pmis directly, gather to rank 0); tools/props/C12.py assembles the ranks' strips before comparing with the model"]
+TRUSTED_BASE = ["mpirun/Open MPI 4.1.4, mpicxx (g++ 12); harness/drv_mpi_solve.cpp (recording coarsening wrapper incl. its own pmis run for P_tent, ops pmis / sa / bsa "
+                "calling mpi::coarsening::pmis / smoothed_aggregation directly, gather to rank 0); tools/props/C12.py and c12_sa.py assemble the ranks' strips before comparing with the model; "
+                "ocaml/distsolve/ops_distsa.ml (cellwise tolerance compare, omega rounding check)"]
 RULE = ("cases derived from VERIF_SEED by tools/props/C12.py: coarsening {aggregation, smoothed_aggregation} x 9 relaxations x 9 "
         "solvers (+ relaxation-as-preconditioner x solvers), merge repartitioning on/off, SPD M-matrices n = 8..48, random "
         "contiguous partitions with empty ranks; near-null-space cases (cols 0..3, block_size 1/2, grids with thin strips on 2..8 ranks); PMIS model tie: all "
         "graphs n <= 4 (thorough: 5) x all contiguous partitions on 1..4 ranks, all directed patterns n <= 3, random graphs; block values (ops bsolve / bdirect, own random "
         "stream seed*1000+1212): block-SPD systems with non-commuting 2x2 dyadic blocks, 2 coarsenings x 3 relaxations x 3 solvers, merge on/off, 1..4 (1..8) ranks; "
+        "distributed smoothed aggregation (ops sa / bsa, own random stream seed*1000+1271): matrices n = 3..20 (blocks 3..12) with entries of three size classes, "
+        "diagonals fixed up so that the filtered diagonal is a power of two, eps_strong in {1/4, 1/2, 1/8, 0, 0.08}, relax in {3/4, 3/2, 3/8, 1}, 1..3 calls, "
+        "estimate_spectral_radius in 20% of the scalar cases, random contiguous partitions with empty ranks on 1..4 (1..8) ranks; "
         "non-trivial = all ranks returned a result line")
 
 COARSENINGS = ["aggregation", "smoothed_aggregation"]
@@ -177,6 +199,8 @@ def cases(tier, seed):
                     add(np_, "solve", " ".join(cfg), "--", fmt_crs(n, n, M), fmt_ivec(p), fmt_vec(f), fmt_vec([F(0)] * n), 1)
     # ---- block value types: static_matrix<double,2,2> (own random stream: the cases above keep ids and payloads)
     out += bsolve_cases(tier, seed)
+    # ---- distributed smoothed aggregation on its own, against the model DistSa.v (own random stream)
+    out += c12_sa.sa_cases(tier, seed)
     # ---- PMIS model tie (Pmis.v): pattern graphs x contiguous partitions, exhaustive for small n
     import itertools
     def graph_case(np_, n, edges, p, eps="0", w=None):
@@ -293,7 +317,7 @@ def bsolve_cases(tier, seed):
             out.append("p%d.b%d bdirect 2 %s %s %s" % (np_, k, bv.fmt_bcrs(n, n, A), fmt_ivec(p), fmt_vec(f)))
     return out
 
-BMAT_RE = re.compile(r"([APRC])(\{[^}]*\})")
+BMAT_RE = re.compile(r"([APRCTS])(\{[^}]*\})")
 
 def parse_bstrip(s_, b=2):
     """'{n m | c:v,v,v,v ... | ...}' -> (n, m, rows of (col, block))"""
@@ -373,7 +397,7 @@ def check_bsolve(line, out, np_, olines, fails, ctx):
         return fail("same level structure on every rank", got=[[k for k, _ in s_] for s_ in seqs])
     levels = []
     for idx, (k, _) in enumerate(seqs[0]):
-        try: M = assemble_b([s_[idx][1] for s_ in seqs], b)
+        try: M = assemble([s_[idx][1] for s_ in seqs]) if k == "S" else assemble_b([s_[idx][1] for s_ in seqs], b)
         except Exception as e: return fail("level matrices assemble", got=str(e))
         if k == "A": levels.append({})
         if not levels: return fail("level log starts with A", got=k)
@@ -382,11 +406,23 @@ def check_bsolve(line, out, np_, olines, fails, ctx):
     st = ctx["stats"]["by_op"]
     for li, L in enumerate(levels):
         if not all(k in L for k in "APR"): return fail("level has A, P, R", got=list(L))
-        tok = {k: expand_tok(L[k], b) for k in L}
+        tok = {k: expand_tok(L[k], b) for k in L if k != "S"}
         base = "%s.l%d" % (c.cid, li)
         if li == 0 and (L["A"][0] != c.n or sorted_rows(L["A"][2]) != sorted_rows(c.rows)):
             fail("finest level matrix is the system matrix", got=li)
         olines.append(("R = P^T (transposed block pattern, adjoint blocks)", "%s.tr o.transpose %s %s" % (base, tok["P"], tok["R"])))
+        if coarsening == "smoothed_aggregation":
+            # the recorded P_tent and strength pattern: P = (I - omega Df^-1 A_f) P_tent with BLOCK products in this order
+            if not all(k in L for k in "TS"): return fail("smoothed aggregation level has the recorded P_tent and strength pattern", got=list(L))
+            btok = lambda M: "%d %d %s" % (M[0], M[1], " ".join("%d %s" % (len(rw), " ".join("%d %s" % (cc, bv.fmt_blk(B)) for cc, B in rw)) for rw in M[2]))
+            omega = F(c.kv.get("precond.coarsening.relax", "1")) * c12_sa.C23
+            scale = max([abs(v) for rw in L["P"][2] for _, B in rw for v in bv.bl_flat(B)] + [F(1)])
+            c12_sa.level_oracle(olines, base, b, btok(L["A"]), crs_tok(*L["S"]), btok(L["T"]), btok(L["P"]), omega, scale)
+            st["bsolve_sa_levels_with_formula_oracle"] = st.get("bsolve_sa_levels_with_formula_oracle", 0) + 1
+            if li == 0:
+                ctx["stats"]["oracle_checks"] += 1
+                bad = c12_sa.strength_check(L["A"][2], L["S"][2], F(float(F(c.kv.get("precond.coarsening.aggr.eps_strong", "0.08")))))
+                if bad: fail("strength pattern of the finest level = the strength test with eps_strong (block traces)", level=li, entry=bad)
         if coarsening == "aggregation":
             ctx["stats"]["oracle_checks"] += 1
             I = bv.bl_id(b); cols = set()
@@ -501,7 +537,7 @@ def ns_system(r, np_, K, bs):
 
 # ---------------------------------------------------------------- parsing the per-rank reports
 RANK_RE = re.compile(r"^((?:it=\S+ res=\S+ bits=\S+)(?: again it=\S+ res=\S+ bits=\S+)*) x=(\[[^\]]*\]) L (\d+)(.*)$")
-MAT_RE = re.compile(r"([APRCBN])(\{[^}]*\})")
+MAT_RE = re.compile(r"([APRCBNTS])(\{[^}]*\})")
 PMIS_RE = re.compile(r"^na=(\d+) P(\{[^}]*\})(?: N(\{[^}]*\}))? S(\{[^}]*\})$")
 
 def crs_tok(n, m, rows): return fmt_crs(n, m, rows)
@@ -638,6 +674,23 @@ def check_solve(line, out, np_, olines, fails, ctx):
             else:
                 olines.append(("near-null space of the level = coarse near-null space of the level above",
                                "%s.nb o.same %s %s" % (base, crs_tok(*levels[li - 1]["N"]), tok["B"])))
+        if coarsening == "smoothed_aggregation" and not K:
+            # recorded P_tent (T) and strength pattern (S) of the level: P = (I - omega Df^-1 A_f) P_tent, omega as coded
+            if not all(k in L for k in "TS"): return fail("smoothed aggregation level has the recorded P_tent and strength pattern", got=list(L))
+            relax = F(c.kv.get("precond.coarsening.relax", "1"))
+            if c.kv.get("precond.coarsening.estimate_spectral_radius") == "true":
+                rho = c12_sa.gersh_rho(L["A"][2]); omega = relax * c12_sa.C43 / rho if rho else None
+            else: omega = relax * c12_sa.C23
+            if omega is not None:
+                scale = max([abs(v) for rw in L["P"][2] for _, v in rw] + [F(1)])
+                c12_sa.level_oracle(olines, base, 1, tok["A"], tok["S"], tok["T"], tok["P"], omega, scale)
+                ns_stat(ctx, "solve_sa_levels_with_formula_oracle")
+            # per-level handling: the level's strength pattern is the one of eps_strong * 0.5^level (near-ties skipped)
+            ctx["stats"]["oracle_checks"] += 1
+            bad = c12_sa.strength_check(L["A"][2], L["S"][2], F(float(F(c.kv.get("precond.coarsening.aggr.eps_strong", "0.08")))) / 2**li)
+            if bad: fail("strength pattern of the level = the strength test with eps_strong * 0.5^level", level=li, entry=bad)
+            olines.append(("P_tent of the level is a partition (no empty aggregate, one unit entry per aggregated row)",
+                           "%s.pt o.partition %s" % (base, tok["T"])))
         if coarsening == "aggregation":
             if K:
                 scaleB = max([abs(v) for rw in L["B"][2] for _, v in rw] + [F(1)])
@@ -915,7 +968,8 @@ def run(ctx, cases_override=None):
             o = impl.get(cid)
             if o is None and crashed and cid not in frag_ids: continue   # not run: an earlier case of its shard hung / crashed
             try:
-                {"solve": check_solve, "pmis": check_pmis, "direct": check_direct, "bsolve": check_bsolve, "bdirect": check_bdirect}[op](l, o, np_, olines, fails, ctx)
+                if op in ("sa", "bsa"): c12_sa.check_sa(l, o, np_, fails, ctx)
+                else: {"solve": check_solve, "pmis": check_pmis, "direct": check_direct, "bsolve": check_bsolve, "bdirect": check_bdirect}[op](l, o, np_, olines, fails, ctx)
             except Exception as e:
                 fails.append(dict(kind="counterexample", case=l, impl=(o or "")[:3000], model=None, op=op, size=len(l), np=np_,
                                   oracle=dict(op="well-formed report", error=repr(e)[:300]),
@@ -955,6 +1009,9 @@ def run(ctx, cases_override=None):
                     fails.append(dict(kind="counterexample", case=l, impl=want[:3000], model=(got or "")[:3000], op="pmis", size=len(l), np=np_,
                                       oracle=dict(op="PMIS model (Pmis.v) = implementation: aggregates, counts, strength pattern"),
                                       theorem="C12-B PMIS model vs pmis.hpp (%d ranks)" % np_))
+        # fourth stage: the extracted model of the distributed smoothed aggregation (DistSa.v) on the sa / bsa cases
+        c12_sa.finish_sa(ctx, np_, fails, lambda key: ns_stat(ctx, key))
+        tick("sa model np=%d" % np_)
     return fails
 
 
